@@ -1,6 +1,6 @@
 """C08 - compact never changes the covered region."""
 import random
-from . import core, params, cells, compaction as cp, session
+from . import core, params, cells, compaction as cp, session, testtraces
 
 
 def run(v, prefixes=("C08",), pid="C08"):
@@ -77,6 +77,14 @@ def run(v, prefixes=("C08",), pid="C08"):
             some = rng.sample(faces, rng.randrange(1, 5)) + ([faces[0]] if k % 2 else [])
             lst = [0] + some + (ser.cell_to_children(faces[k % 12], 1)[:rng.randrange(0, 6)])
             events.append(cp.compact_event(cp.permuted(lst, rng) if k % 3 else lst))
+    # traces of the repository's own tests (hooks on): every recorded compact() run is judged as well
+    summary, tev = testtraces.record(d, ["tests/core/test_compact.py"] if quick else ["tests"])
+    tcomp = testtraces.compact_events(tev)
+    v.cov["repo_test_run"] = summary
+    v.cov["compact_runs_recorded_from_repo_tests"] = len(tcomp)
+    for e in tcomp:
+        e.pop("test", None)
+    events += tcomp
     bad = cp.judge_events(d, v, events, prefixes)
     if not quick:
         session.run(d, v, quick, ("compact",), pid + ".session", core.seed() + (800 if pid == "C08" else 900))
